@@ -28,8 +28,11 @@ def gen_table(rng, kind):
             txt = "q" + txt
         if kind in ("single", "prefixfree"):
             # unique, prefix-free codes: fixed length 2
+            # variable length, prefix-free by construction: the first byte decides the length
             while True:
-                code = bytes([rng.randrange(256), rng.randrange(256)])
+                b0 = rng.randrange(256)
+                ln = 3 if b0 < 0x40 else 2 if b0 < 0x80 else 1
+                code = bytes([b0] + [rng.randrange(256) for _ in range(ln - 1)])
                 if code not in used_codes:
                     break
             if any(t == txt for t, _, _ in entries):
@@ -151,8 +154,11 @@ def run(ctx):
                         if kind == "single" and back != st:
                             s.violate({"table": ftext, "text": st}, st, back, "a string over a single-character prefix-free table does not round-trip")
                         if kind == "prefixfree":
-                            # decoding returns the texts of the matched entries in order = the string re-segmented by longest match
-                            if back != st:
+                            # decoding returns the texts of the matched entries in order (Spec.matched); characters the
+                            # greedy segmentation leaves without an entry are skipped
+                            exp_m = drv.ask([f"spec.tblmatched {';'.join(hx(t) + '=' + (c.hex() or '-') for t, c in ent_ok) or '-'} {hx(st)}"])[0]
+                            if hx(back) != exp_m:
+                                st = bytes.fromhex(exp_m).decode("utf-8") if exp_m != "-" else ""
                                 s.violate({"table": ftext, "text": st}, st, back, "decoding the emitted bytes does not return the matched texts in order")
             if ti < 2:
                 s.sample({"table": ftext, "text": strings[0], "model": model[0] if model else None})
@@ -176,8 +182,13 @@ def run(ctx):
                 continue
             depth = rng.randrange(1, 4)
             opens = "".join(rng.choice(["{\n", ".scope sc%d {\n" % k]) for k in range(depth))
-            src = (f"*=0x008000\n.table 'a.tbl'\n.text '{s1_}'\nl1:\n{opens}.text '{s2_}'\nl2:\n" + "}\n" * depth +
-                   f"{{\n.table 'b.tbl'\n.text '{s3_}'\nl3:\n}}\n.text '{s1_}'\nl4:\n")
+            if i % 3 == 2:
+                # a scope that switches tables between two .text directives; an inner scope that emits under the
+                # enclosing table and only then loads its own
+                src = (f"*=0x008000\n.table 'a.tbl'\n.text '{s1_}'\nl1:\n{{\n.text '{s2_}'\nl2:\n.table 'b.tbl'\n.text '{s3_}'\nl3:\n}}\n.text '{s1_}'\nl4:\n")
+            else:
+                src = (f"*=0x008000\n.table 'a.tbl'\n.text '{s1_}'\nl1:\n{opens}.text '{s2_}'\nl2:\n" + "}\n" * depth +
+                       f"{{\n.table 'b.tbl'\n.text '{s3_}'\nl3:\n}}\n.text '{s1_}'\nl4:\n")
             r = impl.assemble(src, cwd=tmp)
             ta, tbb = Table(os.path.join(tmp, "a.tbl")), Table(os.path.join(tmp, "b.tbl"))
             exp = [ta.to_bytes(s1_), ta.to_bytes(s2_), tbb.to_bytes(s3_), ta.to_bytes(s1_)]
